@@ -49,6 +49,25 @@ F3p == [Base("F3p", <<"H","O">>, <<0,1,0>>, <<<<1,1,2>>,<<2,1,2>>,<<2,2,2>>>>, <
           EXCEPT !.bond = Terms("F3p", "b", <<<<0,1>>,<<2,1>>>>, <<0,0>>, 1, TRUE),
                  !.angle = Terms("F3p", "n", <<<<0,1,2>>>>, <<0>>, 1, TRUE)]
 
+\* three-membered ring: the three angles are on the same three atoms in permuted (not reversed) order
+F3r == [Base("F3r", <<"C","O","N">>, <<0,1,2>>, <<<<5,1,1>>,<<6,1,1>>,<<5,2,1>>>>, <<4,4,4>>, TRUE)
+          EXCEPT !.bond = Terms("F3r", "b", <<<<0,1>>,<<1,2>>,<<2,0>>>>, <<0,1,2>>, 3, TRUE),
+                 !.angle = Terms("F3r", "n", <<<<0,1,2>>,<<1,2,0>>,<<2,0,1>>>>, <<0,1,2>>, 3, TRUE)]
+
+\* laid over an F3r instance (same three positions): redeclares only one of the three ring angles, backwards
+F3q == [Base("F3q", <<"C","O","N">>, <<0,1,2>>, <<<<5,1,1>>,<<6,1,1>>,<<5,2,1>>>>, <<4,4,4>>, TRUE)
+          EXCEPT !.angle = Terms("F3q", "n", <<<<2,1,0>>>>, <<0>>, 1, TRUE),
+                 !.bond = Terms("F3q", "b", <<<<1,0>>>>, <<0>>, 1, TRUE)]
+OverlayBase(f) == IF f = "F3q" THEN "F3r" ELSE f
+
+\* angle and dihedral-free structure *without bonds* (terms of one kind only)
+F3a == [Base("F3a", <<"O","C">>, <<0,1,0>>, <<<<5,4,1>>,<<6,4,1>>,<<7,4,1>>>>, <<0,0,0>>, TRUE)
+          EXCEPT !.angle = Terms("F3a", "n", <<<<0,1,2>>>>, <<0>>, 1, TRUE)]
+
+\* bare chain with three bond types: deleting the middle bond leaves a gap in the ids in use
+F4b == [Base("F4b", <<"C","N">>, <<0,1,1,0>>, <<<<1,5,1>>,<<2,5,1>>,<<3,5,1>>,<<4,5,1>>>>, <<0,0,2,2>>, FALSE)
+          EXCEPT !.bond = Terms("F4b", "b", <<<<0,1>>,<<3,2>>,<<1,2>>>>, <<0,1,2>>, 3, FALSE)]
+
 \* C-N-N-C chain with all four kinds of terms; two impropers on the same four atoms in
 \* permuted (not reversed) order, and two bond types
 F4p == [Base("F4p", <<"C","N">>, <<0,1,1,0>>, <<<<1,1,3>>,<<2,1,3>>,<<3,1,3>>,<<4,1,3>>>>, <<0,0,1,1>>, TRUE)
@@ -72,10 +91,10 @@ F2y == [Base("F2y", <<"Cu","O">>, <<0,1>>, <<<<3,3,1>>,<<3,4,1>>>>, <<0,0>>, FAL
 Empty == Base("E", <<>>, <<>>, <<>>, <<>>, FALSE)
 
 Frag(f) == CASE f = "F1p" -> F1p [] f = "F2p" -> F2p [] f = "F2b" -> F2b [] f = "F3p" -> F3p
-             [] f = "F4p" -> F4p [] f = "F3x" -> F3x [] f = "F2y" -> F2y [] f = "E" -> Empty
+             [] f = "F4p" -> F4p [] f = "F3r" -> F3r [] f = "F3q" -> F3q [] f = "F3a" -> F3a [] f = "F4b" -> F4b [] f = "F3x" -> F3x [] f = "F2y" -> F2y [] f = "E" -> Empty
 
 \* flavour: "p" = carries coefficient tables, "b" = bare, "n" = neutral (no atoms)
-Flavour(f) == CASE f \in {"F1p","F2p","F3p","F4p"} -> "p" [] f = "E" -> "n" [] OTHER -> "b"
+Flavour(f) == CASE f \in {"F1p","F2p","F3p","F4p","F3r","F3q","F3a"} -> "p" [] f = "E" -> "n" [] OTHER -> "b"
 
 \* cells (rows are the cell vectors, lattice units); <<>> = no cell
 CellOf(c) == CASE c = "none" -> <<>>
